@@ -425,9 +425,42 @@ fn corpus_devices() -> Vec<DeviceDesc> {
         pad: 0,
         end_marker: true,
     };
+    // PDO header fields the parser skips (DC sync, name string index, flags) at their extremes; exactly 64 PDOs
+    // (the heapless capacity) in one direction and 65 (one too many: Capacity(Pdo)) in the other; General behind
+    // Strings and PDOs
+    let pdo_x = |index: u16, sm, n: usize| eg::PdoDesc {
+        index,
+        sm,
+        dc_sync: 0xff,
+        name_idx: 0xff,
+        flags: 0xffff,
+        entries: (0..n).map(|i| (0xffff, 0xff, 0xff, 0xff, (i % 7) as u8, 0xffff)).collect(),
+    };
+    let at_cap = DeviceDesc {
+        header: hdr.clone(),
+        cats: vec![
+            CatDesc::Strings(strings.clone()),
+            CatDesc::TxPdo((0..64).map(|i| pdo_x(0x1a00 + i, 3, (i % 4) as usize)).collect()),
+            CatDesc::RxPdo((0..65).map(|i| pdo_x(0x1600 + i, 2, (i % 3) as usize)).collect()),
+            CatDesc::General(general.clone()),
+        ],
+        pad: 0,
+        end_marker: true,
+    };
+    // a PDO with the maximum of 255 entries next to an empty one, General in front of Strings
+    let max_entries = DeviceDesc {
+        header: hdr.clone(),
+        cats: vec![
+            CatDesc::General(general.clone()),
+            CatDesc::RxPdo(vec![pdo_x(0x1600, 0, 0), pdo_x(0xffff, 0xff, 255), pdo_x(0, 0, 1)]),
+            CatDesc::Strings(strings.clone()),
+        ],
+        pad: 0,
+        end_marker: true,
+    };
     // no categories at all, no end marker
     let blank = DeviceDesc { header: hdr, cats: vec![], pad: 0xff, end_marker: false };
-    vec![full, one_past, size511, far, blank]
+    vec![full, one_past, size511, far, at_cap, max_entries, blank]
 }
 
 fn run(tier: &str, seed: u64, checked: bool, rep: &mut Report) {
@@ -455,7 +488,17 @@ fn run(tier: &str, seed: u64, checked: bool, rep: &mut Report) {
     let n_small = if thorough { 12_000 } else { 700 };
     let small = GenOpts::small();
     for _ in 0..n_small {
-        let d = eg::gen_device(&mut rng, &small);
+        let mut d = eg::gen_device(&mut rng, &small);
+        // now and then around the capacity of the PDO list: 63..67 PDOs (more than 64 must be refused)
+        if rng.chance(1, 16) {
+            for c in d.cats.iter_mut() {
+                if let CatDesc::TxPdo(p) | CatDesc::RxPdo(p) = c {
+                    let n = rng.range(63, 67) as usize;
+                    *p = (0..n).map(|_| eg::gen_pdo(&mut rng, small.max_entries)).collect();
+                    rep.hit(if n > 64 { "pdos-over-capacity" } else { "pdos-at-capacity" });
+                }
+            }
+        }
         run_device_case(&d, false, &mut rng, checked, rep);
     }
     let n_full = if thorough { 400 } else { 25 };
